@@ -37,6 +37,14 @@ def load_prop(pid):
     return importlib.import_module("props." + pid.lower())
 
 
+def ensure_zygote(mod):
+    """Fork the pristine zygote before anything of persim has run (only for the
+    properties that need isolated workers / a pristine reference)."""
+    if getattr(mod, "NEEDS_ZYGOTE", False):
+        from . import zygote
+        zygote.start()
+
+
 # --------------------------------------------------------------------------
 # executing one case
 # --------------------------------------------------------------------------
@@ -56,6 +64,9 @@ def execute(mod, case, log_on=False):
         signal.setitimer(signal.ITIMER_REAL, budget)
     try:
         try:
+            rw = getattr(mod, "reset_world", None)
+            if rw:
+                rw()
             stats = mod.run_case(case, sched)
             return {"status": "ok", "stats": stats or {}, "sched": sched}
         finally:
@@ -282,6 +293,7 @@ def match_known(pid, sig, known):
 def run_property(pid, tier, seed, jobs=None, budget_s=None, runs=None, out=sys.stdout):
     mod = load_prop(pid)
     t0 = time.time()
+    ensure_zygote(mod)
     plan = dict(mod.PLAN[tier])
     if runs is not None:
         plan["runs"] = runs
@@ -473,6 +485,7 @@ def write_evidence(mod, tier, seed, agg, extra_info, wall, reported, jobs):
 # --------------------------------------------------------------------------
 def replay_file(pid, path, quiet=False, out=sys.stdout):
     mod = load_prop(pid)
+    ensure_zygote(mod)
     with open(path) as f:
         case = json.load(f)
     expect = (case.get("violation") or {}).get("signature")
